@@ -1,5 +1,7 @@
 package harness
 
+import "fmt"
+
 // hash helpers: h1 = hash >> 7 selects the bucket, h2 = hash & 0x7f is the meta byte.
 func hsh(h1 uint64, h2 uint8) uint64 { return h1<<7 | uint64(h2&0x7f) }
 
@@ -19,6 +21,14 @@ func init() {
 		// spread: after growth 2->4 keys separate: h1 = 0,2 share bucket 0 in a 2-table but split in a 4-table
 		spread := []uint64{hsh(0, 1), hsh(2, 2), hsh(4, 3), hsh(6, 4), hsh(0, 5), hsh(2, 6), hsh(1, 7), hsh(3, 8), hsh(1, 9), hsh(3, 10), hsh(5, 11), hsh(4, 12)} // key 11: even h1, bucket 0 of a 2-bucket table like keys 0-5
 		fill8 := []string{"ins 0", "ins 1", "ins 2", "ins 3", "ins 4", "ins 6", "ins 7", "ins 8"}                                                                 // bucket 0 full (5), bucket 1 has 3: next insert into bucket 0 grows
+		// parallel copy with a fan-out that does not divide the table: GOMAXPROCS answer 3, a 4-bucket table with 16
+		// entries grows to 8 buckets (chunks = 3 in the small-scope build); keys 13-15 live in its last bucket
+		wide := []uint64{hsh(0, 1), hsh(4, 2), hsh(8, 3), hsh(12, 4), hsh(16, 5), hsh(1, 6), hsh(5, 7), hsh(9, 8), hsh(13, 9), hsh(2, 10), hsh(6, 11), hsh(10, 12), hsh(14, 13), hsh(3, 14), hsh(7, 15), hsh(11, 16), hsh(20, 17)}
+		var fill16 []string
+		for k := 0; k < 16; k++ {
+			fill16 = append(fill16, fmt.Sprintf("ins %d", k))
+		}
+		add(c15Params{Hashes: wide, Procs: 3, Setup: fill16, Threads: [][]string{{"ins 16", "get 13"}, {"get 15", "get 14"}}}, "small", 2, 8, 60, "grew")
 		if !thorough {
 			// H1: get / insert / delete / update in one chain incl. overflow bucket (6 colliding keys)
 			add(c15Params{Hashes: same, Setup: []string{"ins 0", "ins 1", "ins 2", "ins 3", "ins 4"}, Threads: [][]string{{"ins 5", "get 0"}, {"del 0", "get 5"}, {"get 5", "get 0"}}}, "small", 2, 8, 60)
